@@ -125,6 +125,12 @@ Settle(g, su, cb, protect) ==
     LET g1 == IF cb /\ NotRooted(g) /\ Len(g.kids[g.seed]) = 2 THEN CollapseBasal(g, TRUE, protect) ELSE g
     IN IF su THEN Suppress(g1, protect) ELSE g1
 
+\* encode_bipartitions itself first suppresses unifurcations at or just below the seed of an unrooted tree when they
+\* would hide the basal bifurcation (repo fix 5d6fc01f)
+HiddenBasal(g) == Len(g.kids[g.seed]) = 1 \/ \E c \in KidSet(g, g.seed) : Len(g.kids[c]) = 1
+SettleEnc(g, su, cb, protect) ==
+    Settle(IF cb /\ NotRooted(g) /\ su /\ HiddenBasal(g) THEN Suppress(g, protect) ELSE g, su, cb, protect)
+
 \* Edge.invert on the edge of c, a child of the seed: c becomes the seed, the old seed its last child
 InvertTop(g, c) ==
     LET s == g.seed IN
@@ -142,13 +148,13 @@ HoistOnly(g, x) ==
               !.par = [y \in 1..g.n |-> IF SqHas(ch, y) THEN x ELSE IF y = c THEN 0 ELSE g.par[y]]]
 
 \* ------------------------------------------------------------ reference operations (node arguments are ids of g)
-ReseedCore(g, x, su, cb, protect) ==
+ReseedCore(g, x, ub, su, cb, protect) ==
     LET wasLeaf == IsLeaf(g, x)
         g1 == SeedTo(g, x)
         g2 == IF wasLeaf /\ su /\ x # g.seed /\ Len(g1.kids[x]) = 1 THEN HoistOnly(g1, x) ELSE g1
-    IN Settle(g2, su, cb, protect)
-OpReseedAt(g, x, su, cb) == R(ReseedCore(g, x, su, cb, {}), "")
-RerootCore(g, x, su) == [ReseedCore(g, x, su, FALSE, {}) EXCEPT !.rooted = 1]
+    IN IF ub THEN SettleEnc(g2, su, cb, protect) ELSE Settle(g2, su, cb, protect)
+OpReseedAt(g, x, ub, su, cb) == R(ReseedCore(g, x, ub, su, cb, {}), "")
+RerootCore(g, x, su) == [ReseedCore(g, x, FALSE, su, FALSE, {}) EXCEPT !.rooted = 1]
 OpRerootAtNode(g, x, su) == R(RerootCore(g, x, su), "")
 OpRerootAtEdge(g, h, l1, l2, su) ==
     LET t == g.par[h]
@@ -200,7 +206,7 @@ OpRerootAtMidpoint(g, su) ==
         loc == MidLoc(g, p, mi.D)
     IN IF loc.on
          THEN (IF "F03" \in AsShipped
-                 THEN R([ReseedCore(g, loc.child, su, TRUE, {}) EXCEPT !.rooted = 1], "")
+                 THEN R([ReseedCore(g, loc.child, FALSE, su, TRUE, {}) EXCEPT !.rooted = 1], "")
                  ELSE R(RerootCore(g, loc.node, su), ""))
          ELSE LET c == loc.node
                   t == g.par[c]
@@ -211,9 +217,9 @@ OpRerootAtMidpoint(g, su) ==
               IN R(RerootCore(g3, s, su), "")
 
 \* to_outgroup_position: reseed at the parent (which, with the outgroup, survives the clean-up), outgroup first
-OpToOutgroupPosition(g, og, su) ==
+OpToOutgroupPosition(g, og, ub, su) ==
     LET p == g.par[og]
-        g1 == ReseedCore(g, p, su, TRUE, {og, p})
+        g1 == ReseedCore(g, p, ub, su, TRUE, {og, p})
     IN R(GInsert(GDetach(g1, og), p, 1, og), "")
 
 OpCollapseBasalBifurcation(g, setUnrooted) == R(CollapseBasal(g, setUnrooted, {}), "")
@@ -236,7 +242,7 @@ OpCollapseUnweightedEdges(g, thr, ub) ==
         bad == {i \in 1..Len(po) : IsLeaf(g, po[i]) /\ g.len[po[i]] < 0 /\ g.par[po[i]] # 0}
     IN IF "F02" \in AsShipped /\ bad # {}
          THEN R(CollapseSet(g, Unweighted(g, thr) \cap {po[i] : i \in 1..(Min(bad) - 1)}), "ValueError")
-         ELSE LET g1 == CollapseSet(g, Unweighted(g, thr)) IN R(IF ub THEN Settle(g1, TRUE, TRUE, {}) ELSE g1, "")
+         ELSE LET g1 == CollapseSet(g, Unweighted(g, thr)) IN R(IF ub THEN SettleEnc(g1, TRUE, TRUE, {}) ELSE g1, "")
 \* resolve_polytomies(limit=2, rng=None): repeatedly join the first two children under a new zero-length node
 RECURSIVE ResolveNode(_, _)
 ResolveNode(g, x) ==
@@ -250,19 +256,19 @@ ResolveNode(g, x) ==
 RECURSIVE ResolveSet(_, _)
 ResolveSet(g, Q) == IF Q = {} THEN g ELSE ResolveSet(ResolveNode(g, Min(Q)), Q \ {Min(Q)})
 OpResolvePolytomies(g, ub) ==
-    LET g1 == ResolveSet(g, {x \in Reachable(g) : Len(g.kids[x]) > 2}) IN R(IF ub THEN Settle(g1, TRUE, TRUE, {}) ELSE g1, "")
+    LET g1 == ResolveSet(g, {x \in Reachable(g) : Len(g.kids[x]) > 2}) IN R(IF ub THEN SettleEnc(g1, TRUE, TRUE, {}) ELSE g1, "")
 OpPruneSubtree(g, x, ub, su) ==
     IF g.par[x] = 0 THEN R(g, "TypeError")
     ELSE LET g1 == GDetach(g, x)
              g2 == IF su THEN Suppress(g1, {}) ELSE g1
-         IN R(IF ub THEN Settle(g2, TRUE, TRUE, {}) ELSE g2, "")
+         IN R(IF ub THEN SettleEnc(g2, TRUE, TRUE, {}) ELSE g2, "")
 \* prune_taxa(S) followed by the recursive removal of leaves without taxa
 RECURSIVE HasKept(_, _, _)
 HasKept(g, x, S) == IF IsLeaf(g, x) THEN g.tx[x] # 0 /\ g.tx[x] \notin S ELSE \E c \in KidSet(g, x) : HasKept(g, c, S)
 OpPruneTaxa(g, S, ub, su) ==
     LET g1 == [g EXCEPT !.kids = [x \in 1..g.n |-> SelectSeq(g.kids[x], LAMBDA c : HasKept(g, c, S))]]
         g2 == IF su THEN Suppress(g1, {}) ELSE g1
-    IN R(IF ub THEN Settle(g2, TRUE, TRUE, {}) ELSE g2, "")
+    IN R(IF ub THEN SettleEnc(g2, TRUE, TRUE, {}) ELSE g2, "")
 \* retain_taxa(S): prune every taxon of the namespace not in S (allTaxa = the namespace's codes)
 OpRetainTaxa(g, S, allTaxa, ub, su) == OpPruneTaxa(g, allTaxa \ S, ub, su)
 \* ladderize: children sorted (stable) by number of descendants; reorder: by taxon label (code order here)
@@ -282,7 +288,7 @@ OpRemoveChild(g, p, c, su) ==
               IF d = 0 THEN R(g1, "")
               ELSE LET other == IF k[1] = d THEN k[2] ELSE k[1] IN
                    R(CollapseInto([g1 EXCEPT !.len[other] = AddLen(g1.len[other], g1.len[d])], d, FALSE), "")
-OpEncodeBipartitions(g, su, cb) == R(Settle(g, su, cb, {}), "")
+OpEncodeBipartitions(g, su, cb) == R(SettleEnc(g, su, cb, {}), "")
 
 \* ------------------------------------------------------------ comparison modulo child order and names of new nodes
 RECURSIVE UForm(_, _)
@@ -377,11 +383,11 @@ C07Post(c, pre, post) ==
       [] OTHER -> TRUE
 \* the reference result of a call (node ids of g)
 RefCall(c, g, allTaxa) ==
-    CASE c.a = "ReseedAt" -> OpReseedAt(g, c.x, c.su, c.cb)
+    CASE c.a = "ReseedAt" -> OpReseedAt(g, c.x, c.ub, c.su, c.cb)
       [] c.a = "RerootAtNode" -> OpRerootAtNode(g, c.x, c.su)
       [] c.a = "RerootAtEdge" -> OpRerootAtEdge(g, c.x, c.l1, c.l2, c.su)
       [] c.a = "RerootAtMidpoint" -> OpRerootAtMidpoint(g, c.su)
-      [] c.a = "ToOutgroupPosition" -> OpToOutgroupPosition(g, c.x, c.su)
+      [] c.a = "ToOutgroupPosition" -> OpToOutgroupPosition(g, c.x, c.ub, c.su)
       [] c.a = "Deroot" -> OpCollapseBasalBifurcation(g, TRUE)
       [] c.a = "CollapseBasalBifurcation" -> OpCollapseBasalBifurcation(g, c.f)
       [] c.a = "SuppressUnifurcations" -> OpSuppressUnifurcations(g)
